@@ -8,6 +8,12 @@ package kv
 
 //@ import version "github.com/synnaxlabs/x/version"
 //@ import query "github.com/synnaxlabs/x/query"
+//@ import address "github.com/synnaxlabs/x/address"
+//@ # engine, tracing and logging calls are outside the subset: results unconstrained, no modelled state touched
+//@ ignorepkg github.com/synnaxlabs/x/kv
+//@ ignorepkg github.com/synnaxlabs/alamos
+//@ ignorepkg go.uber.org/zap
+//@ ignorepkg github.com/synnaxlabs/x/errors
 
 //@ # (version, leaseholder) of an operation or of a stored digest
 //@ decl type SpecVL struct { V version.Counter; L node.Key }
@@ -15,10 +21,16 @@ package kv
 //@ # what a replica keeps for one key after being offered operation o while holding s
 //@ spec func step(s SpecVL, o SpecVL) SpecVL = __ite(gt(o, s), o, s)
 
-//@ # the digest view of a transaction/reader (ghost, uninterpreted): present?, value, read error
-//@ spec func SpecHasDigest(r xkv.Reader, key []byte) bool
-//@ spec func SpecDigestOf(r xkv.Reader, key []byte) Digest
+//@ # the digest view of a reader / transaction / engine: a ghost map from (store, key) to the
+//@ # digest held there (a transaction sees its own writes, so the map is mutable); read errors
+//@ # are an uninterpreted function of (store, key)
+//@ decl type SpecRK struct { R any; K string }
+//@ ghost SpecDig map[SpecRK]Digest
+//@ spec func SpecHasDigest(r any, key []byte) bool = __in(SpecDig, SpecRK{R: r, K: string(key)})
+//@ spec func SpecDigestOf(r any, key []byte) Digest = SpecDig[SpecRK{R: r, K: string(key)}]
 //@ spec func SpecReadErr(r xkv.Reader, key []byte) error
+//@ spec func vlOp(o Operation) SpecVL = SpecVL{V: o.Version, L: o.Leaseholder}
+//@ spec func vlDig(d Digest) SpecVL = SpecVL{V: d.Version, L: d.Leaseholder}
 //@ trusted func getDigestFromKV(ctx context.Context, r xkv.Reader, key []byte) (dig Digest, err error)
 //@   ensures SpecReadErr(r, key) != nil ==> err == SpecReadErr(r, key) && !__is(err, query.ErrNotFound)
 //@   ensures SpecReadErr(r, key) == nil && !SpecHasDigest(r, key) ==> err != nil && __is(err, query.ErrNotFound)
@@ -29,8 +41,43 @@ package kv
 //@   ensures SpecReadErr(r, op.Key) != nil ==> !res && err == SpecReadErr(r, op.Key)
 //@   ensures SpecReadErr(r, op.Key) == nil ==> err == nil
 //@   ensures SpecReadErr(r, op.Key) == nil && !SpecHasDigest(r, op.Key) ==> res
-//@   ensures SpecReadErr(r, op.Key) == nil && SpecHasDigest(r, op.Key) ==> res == gt(SpecVL{op.Version, op.Leaseholder}, SpecVL{SpecDigestOf(r, op.Key).Version, SpecDigestOf(r, op.Key).Leaseholder})
+//@   ensures SpecReadErr(r, op.Key) == nil && SpecHasDigest(r, op.Key) ==> res == gt(vlOp(op), vlDig(SpecDigestOf(r, op.Key)))
 //@   modifies nothing
+
+//@ # writing a digest through a transaction replaces the digest of that key in that transaction's
+//@ # view and nothing else (the engine write itself is outside the subset: pebble batch)
+//@ trusted func (d Digest) apply(ctx context.Context, w xkv.Writer) (err error)
+//@   ensures err != nil ==> (forall x SpecRK :: __in(SpecDig, x) == old(__in(SpecDig, x)) && __eq(SpecDig[x], old(SpecDig[x])))
+//@   ensures err == nil ==> SpecHasDigest(w, d.Key) && __eq(SpecDigestOf(w, d.Key), d)
+//@   ensures err == nil ==> (forall x SpecRK :: x != SpecRK{R: w, K: string(d.Key)} ==> __in(SpecDig, x) == old(__in(SpecDig, x)) && __eq(SpecDig[x], old(SpecDig[x])))
+//@   modifies SpecDig
+//@ # writing the value does not touch the digest space (keys are prefixed apart)
+//@ trusted func (o Operation) apply(ctx context.Context, b xkv.Writer) (err error)
+//@   modifies nothing
+//@ inline func (o Operation) Digest() Digest
+//@ inline func (tr TxRequest) empty() bool
+//@ # completion callback and span end: opaque function values, assumed not to touch the digest space
+//@ trusted func (tr TxRequest) done(err error)
+//@   modifies nothing
+
+//@ # The gossip-ingress filter: one transaction per request; an operation is accepted only if it
+//@ # strictly supersedes what the transaction sees at its turn (stored state plus earlier accepted
+//@ # operations of the same request); the stored digest only ever grows in (version, leaseholder)
+//@ # order; accepted operations are forwarded only when the transaction committed.
+//@ func (fp *filterPersist) _switch(_ context.Context, b TxRequest, o map[address.Address]TxRequest) (rerr error)
+//@   pragma opaque_func_values
+//@   requires o != nil && fp != nil
+//@   ensures rerr == nil
+//@   assert_before "o[fp.acceptedTo] = accepted" err == nil && len(accepted.Operations) > 0
+//@   assert_before "o[fp.rejectedTo] = rejected" len(rejected.Operations) > 0
+//@   assert_before "accepted.done(err)" err == nil ==> len(accepted.Operations) + len(rejected.Operations) == len(b.Operations)
+//@   modifies SpecDig, o
+//@   loop 0 invariant len(accepted.Operations) + len(rejected.Operations) == __ri(0)
+//@   loop 0 invariant forall i int :: 0 <= i && i < len(accepted.Operations) ==> SpecHasDigest(txn, accepted.Operations[i].Key) && !gt(vlOp(accepted.Operations[i]), vlDig(SpecDigestOf(txn, accepted.Operations[i].Key)))
+//@   loop 0 invariant forall i int :: 0 <= i && i < len(accepted.Operations) ==> (old(SpecHasDigest(txn, accepted.Operations[i].Key)) ==> gt(vlOp(accepted.Operations[i]), vlDig(old(SpecDigestOf(txn, accepted.Operations[i].Key)))))
+//@   loop 0 invariant forall i int, j int :: 0 <= i && i < j && j < len(accepted.Operations) && string(accepted.Operations[i].Key) == string(accepted.Operations[j].Key) ==> gt(vlOp(accepted.Operations[j]), vlOp(accepted.Operations[i]))
+//@   loop 0 invariant forall k string :: old(__in(SpecDig, SpecRK{R: txn, K: k})) ==> __in(SpecDig, SpecRK{R: txn, K: k}) && !gt(vlDig(old(SpecDig[SpecRK{R: txn, K: k}])), vlDig(SpecDig[SpecRK{R: txn, K: k}]))
+//@   loop 0 modifies SpecDig
 
 //@ # ---- consequences of the rule (pure lemmas over gt/step; no bound on the number of operations:
 //@ # they are the induction step of "any order, any duplication, same final state")
